@@ -250,6 +250,27 @@ def monitor (pid : String) (c0 a : List String) : String :=
        | "C08" => Spec.Mon.check8 evs
        | "C09" => Spec.Mon.check9 cfg evs ++ Spec.AuthMon.check input evs
        | "C10" => Spec.Mon.check10 cfg (tlsMode == "implicit") evs
+       | "C11" =>
+         -- `XP=…`: the generator built the MAIL (to `s@x`) / RCPT (to `r@x`) line from known option values: the backend sees exactly
+         -- these, once — or, for a faulty parameter / a parameter of a disabled extension, nothing, and a 5xx reply is written
+         (if !tag.startsWith "XP=" then [] else
+          let xp := (tag.drop 3).toString
+          let any5 := evs.any fun e => match e with
+            | .w bs => (match Spec.ReplySyntax.parse bs with | some rs => rs.any (fun r => r.code ≥ 500 && r.code ≤ 599) | none => false)
+            | _ => false
+          let mails := evs.filterMap fun e => match e with | .mail _ a o _ => if a == "s@x".b then some o else none | _ => none
+          let rcpts := evs.filterMap fun e => match e with | .rcpt _ a o _ => if a == "r@x".b then some o else none | _ => none
+          if xp.startsWith "M:" then
+            (if mails == [parseMailOpts ((xp.drop 2).toString)] then []
+             else ["C11 the backend's Mail did not receive exactly the option values that were sent (or was not called exactly once)"])
+          else if xp.startsWith "R:" then
+            (if rcpts == [parseRcptOpts ((xp.drop 2).toString)] then []
+             else ["C11 the backend's Rcpt did not receive exactly the option values that were sent (or was not called exactly once)"])
+          else if xp == "REFUSED:M" then
+            (if mails.isEmpty && any5 then [] else ["C11 a MAIL line with a faulty or disabled parameter was not refused with 5xx before the backend"])
+          else if xp == "REFUSED:R" then
+            (if rcpts.isEmpty && any5 then [] else ["C11 a RCPT line with a faulty or disabled parameter was not refused with 5xx before the backend"])
+          else [])
        | "C12" =>
          Spec.Mon.check12 cfg evs ++
          (if tag == "TAG=probe" then
